@@ -108,6 +108,54 @@ func objAny(o *Obj, f func(string) bool) bool {
 	return objAny(o.In, f)
 }
 
+// looksLikeUEscape: the text holds a backslash, u and four hex digits (what a \uXXXX escape looks like inside JSON text).
+func looksLikeUEscape(s string) bool {
+	for i := 0; i+6 <= len(s); i++ {
+		if s[i] == '\\' && s[i+1] == 'u' && isHex4(s[i+2:i+6]) {
+			return true
+		}
+	}
+	return false
+}
+
+// looksLikeHTMLEscape: ... for one of the code points that json.Marshal writes as \u escapes: < > & U+2028 U+2029.
+func looksLikeHTMLEscape(s string) bool {
+	for i := 0; i+6 <= len(s); i++ {
+		if s[i] == '\\' && s[i+1] == 'u' {
+			switch strings.ToLower(s[i+2 : i+6]) {
+			case "003c", "003e", "0026", "2028", "2029":
+				return true
+			}
+		}
+	}
+	return false
+}
+
+func isHex4(s string) bool {
+	for i := 0; i < 4; i++ {
+		c := s[i]
+		if !(c >= '0' && c <= '9' || c >= 'a' && c <= 'f' || c >= 'A' && c <= 'F') {
+			return false
+		}
+	}
+	return true
+}
+
+// keysOnly returns a copy of the object tree that keeps the map keys only (for classification).
+func keysOnly(o *Obj) *Obj {
+	if o == nil {
+		return nil
+	}
+	k := &Obj{M: o.M, In: keysOnly(o.In)}
+	if o.X != nil {
+		k.X = map[string]string{}
+		for key := range o.X {
+			k.X[key] = ""
+		}
+	}
+	return k
+}
+
 // rawChain returns the chain with every text decoded (the chain itself when no text holds an escaped byte).
 func rawChain(ch Chain) Chain {
 	dirty := ch.Obj != nil && objAny(ch.Obj, hasEsc)
@@ -554,6 +602,13 @@ type Info struct {
 	ObjRaw    bool            // a string of an embedded object holds bytes that are not valid UTF-8 (its JSON text has U+FFFD there)
 	ObjFFFD   bool            // a string of an embedded object holds a genuine U+FFFD
 	RawAndObj bool            // one chain has an invalid byte in a wrap text and U+FFFD (genuine or from an invalid byte) in its object's JSON text
+	// strings / keys of an embedded object that look like JSON text
+	ObjBackslash  bool // ... hold a backslash
+	ObjEscLook    bool // ... hold the text backslash-u-four-hex-digits
+	ObjEscLookKey bool // ... in a map key
+	ObjEscHTML    bool // ... for one of the code points json.Marshal itself writes as \u escapes (< > & U+2028 U+2029)
+	ObjHTMLChar   bool // ... hold one of the characters < > & U+2028 U+2029 themselves
+	ObjQuote      bool // ... hold a double quote
 }
 
 // Run executes the case.
@@ -872,6 +927,12 @@ func runChains(chs []Chain, eager bool, info *Info) *vstat.Violation {
 			fffd := objAny(ch.Obj, hasFFFD)
 			info.ObjRaw, info.ObjFFFD = info.ObjRaw || b.lossy, info.ObjFFFD || fffd
 			info.RawAndObj = info.RawAndObj || textRaw && (b.lossy || fffd)
+			info.ObjBackslash = info.ObjBackslash || objAny(ch.Obj, func(s string) bool { return strings.Contains(s, `\`) })
+			info.ObjEscLook = info.ObjEscLook || objAny(ch.Obj, looksLikeUEscape)
+			info.ObjEscLookKey = info.ObjEscLookKey || objAny(keysOnly(ch.Obj), looksLikeUEscape)
+			info.ObjEscHTML = info.ObjEscHTML || objAny(ch.Obj, looksLikeHTMLEscape)
+			info.ObjHTMLChar = info.ObjHTMLChar || objAny(ch.Obj, func(s string) bool { return strings.ContainsAny(s, "<>&\u2028\u2029") })
+			info.ObjQuote = info.ObjQuote || objAny(ch.Obj, func(s string) bool { return strings.Contains(s, `"`) })
 			if ch.Into != "" {
 				b.sink = newSink(ch.Into)
 				if info.Into == nil {
@@ -1263,6 +1324,12 @@ func (i Info) Classes() []string {
 	}
 	add(i.TextRaw, "wrap_text_not_valid_utf8")
 	add(i.TextFFFD, "wrap_text_has_U+FFFD")
+	add(i.ObjBackslash, "object_string_has_backslash")
+	add(i.ObjEscLook, "object_string_looks_like_json_u_escape")
+	add(i.ObjEscLookKey, "object_map_key_looks_like_json_u_escape")
+	add(i.ObjEscHTML, "object_string_looks_like_u_escape_of_lt_gt_amp_2028_2029")
+	add(i.ObjHTMLChar, "object_string_has_lt_gt_amp_2028_2029")
+	add(i.ObjQuote, "object_string_has_double_quote")
 	add(i.ObjRaw, "object_string_not_valid_utf8")
 	add(i.ObjFFFD, "object_string_has_U+FFFD")
 	add(i.RawAndObj, "wrap_text_not_valid_utf8_and_U+FFFD_in_object_json")
